@@ -56,6 +56,10 @@ def generate(rng: random.Random, tier: str, seed: int) -> dict:
         base = gen.gen_pipeline(rng, max_nodes=5, allow_file_sink=False)
         if base["init_data"] is None:
             break
+    if base.get("truth") and base["truth"][-1]["out"] == "float" and rng.random() < 0.12:
+        # a context value that the trace driver can only write through its fallback path (mapping with keys of mixed types,
+        # consumed as a parameter by a later node)
+        base["nodes"] = base["nodes"] + [{"processor": "SvCtxWriterMixedKeys"}, {"processor": "rename:mk:mk_moved"}]
     modes = ["reuse", "fresh", "launch"]
     if rng.random() < 0.25:
         modes.append("queue")
